@@ -1,23 +1,21 @@
 #!/bin/sh
-# tools/seedcheck.sh <PROP> <worktree-with-_seed>  : verify an independently produced breaking change and run our check on it
-# 1. copy _seed/{patch.diff,demo.py,meta.json} to /verif/seeded/<PROP>[-n]/
+# tools/seedcheck.sh <PROP> <worktree-with-_seed> [NAME]: verify an independently produced breaking change and run our
+# check on it.  Nothing is applied to /repo: the check runs against a scratch worktree through VERIF_REPO.
+# 1. copy _seed/{patch.diff,demo.py,meta.json} to /verif/seeded/<NAME>/
 # 2. in a scratch worktree of /repo: demo passes without the patch, fails with it; stable tests still pass with it
-# 3. apply to /repo, run ./check <PROP> --tier quick, undo
+# 3. VERIF_REPO=<scratch with patch> ./check <PROP> --tier quick
 set -u
 P="$1"; WT="$2"; NAME="${3:-$P}"
 D=/verif/seeded/$NAME
 mkdir -p "$D"
-cp "$WT/_seed/patch.diff" "$WT/_seed/demo.py" "$WT/_seed/meta.json" "$D/" || exit 2
+if [ -d "$WT/_seed" ]; then cp "$WT/_seed/patch.diff" "$WT/_seed/demo.py" "$WT/_seed/meta.json" "$D/" || exit 2; fi
 S=/tmp/seedscratch-$NAME
 rm -rf "$S"; git -C /repo worktree prune; git -C /repo worktree add -f "$S" HEAD >/dev/null 2>&1 || exit 2
 ( cd "$S" && SEED_REPO="$S" PYTHONPATH="$S" /venv/bin/python "$D/demo.py" >/tmp/seed-$NAME-clean.log 2>&1 ); CLEAN=$?
 ( cd "$S" && git apply "$D/patch.diff" ) || { echo "patch does not apply"; git -C /repo worktree remove --force "$S"; exit 2; }
 ( cd "$S" && SEED_REPO="$S" PYTHONPATH="$S" /venv/bin/python "$D/demo.py" >/tmp/seed-$NAME-patched.log 2>&1 ); PATCHED=$?
 BASE=$(python3 /verif/tools/baseline.py "$S" | head -1)
-git -C /repo worktree remove --force "$S"
 echo "demo clean=$CLEAN patched=$PATCHED ; tests with patch: $BASE"
-[ -n "$(git -C /repo status --porcelain)" ] && { echo "/repo not clean"; exit 2; }
-git -C /repo apply "$D/patch.diff" || exit 2
-( cd /verif && ./check "$P" --tier quick >/tmp/seed-$NAME-check.log 2>&1 ); RC=$?
-git -C /repo checkout -- . 
+( cd /verif && VERIF_REPO="$S" VERIF_WORKERS="${VERIF_WORKERS:-6}" ./check "$P" --tier quick >/tmp/seed-$NAME-check.log 2>&1 ); RC=$?
+git -C /repo worktree remove --force "$S"
 echo "check $P exit=$RC : $(grep -c '^VIOLATION' /tmp/seed-$NAME-check.log) violation lines; $(tail -1 /tmp/seed-$NAME-check.log)"
